@@ -484,7 +484,7 @@ def check_C15(tier):
     if tier == "thorough":
         cfgs += [mk("p3ffault", [3, 2, 1], 4, "fair", 1, 1, faults=1), mk("p3rfault", [3, 2, 1], 6, "rate", 1, 1, faults=1),
                  mk("p2revfault", [2, 1], 3, "rev", 2, 2, faults=1)]
-    return v2_property("C15", tier, cfgs, "drain", level="fault_enumeration", v1kinds=("fault",), v2rand=True,
+    return v2_property("C15", tier, cfgs, "drain", level="fault_enumeration", v1kinds=("fault", "dyn"), v2rand=True,   # dyn: the contract clause across AddInput/RemoveInput (seeded change C15-e)
                        nontrivial=lambda t: t["reset"].get("fault"),
                        rule="fault model: TLC corrupts the result of any ONE divider call (over- or under-allocation) at any reachable state of the "
                             "bounded PrioV2 configurations; every such behaviour is in the transition cover and is replayed with the fault injected at "
